@@ -1514,6 +1514,16 @@ impl<'a> Parser<'a> {
         self.compilers.last_mut().unwrap()
     }
 
+    /// The innermost compiler that is not a plain function or lambda: inside a class body this is
+    /// the method whose receiver `self` and `super` refer to, however deeply the use is nested.
+    fn method_compiler(&self) -> &Compiler {
+        self.compilers
+            .iter()
+            .rev()
+            .find(|c| c.kind != FunctionKind::Function)
+            .unwrap_or_else(|| self.compilers.last().unwrap())
+    }
+
     fn chunk(&mut self) -> &mut Chunk {
         &mut self.compiler_mut().chunk
     }
@@ -1778,7 +1788,7 @@ impl<'a> Parser<'a> {
             s.error("Cannot use 'self' outside of a class.");
             return;
         }
-        if s.compiler().kind == FunctionKind::StaticMethod {
+        if s.method_compiler().kind == FunctionKind::StaticMethod {
             s.error("Cannot use 'self' in a static method.");
             return;
         }
@@ -1807,7 +1817,7 @@ impl<'a> Parser<'a> {
         let previous = s.previous.clone();
         let name = s.identifier_constant(&previous);
 
-        let instance_local_name = s.compiler().locals[0].name.clone();
+        let instance_local_name = s.method_compiler().locals[0].name.clone();
         s.named_variable(Token::from_string(instance_local_name.as_str()), false);
         if s.match_token(TokenKind::LeftParen) {
             let arg_count = s.argument_list(
